@@ -193,16 +193,27 @@ func (u *Unit) ghostRegion(name string, sortName string) string {
 func (u *Unit) subObject(t types.Type, idx int, ref Term) Term {
 	st := t.Underlying().(*types.Struct)
 	name := "sub_" + typeName(t) + "." + st.Field(idx).Name()
-	if _, ok := u.sc.decls[name]; !ok {
-		u.sc.declareFun(name, []string{SInt}, SInt)
-		inv := name + "_inv"
-		u.sc.declareFun(inv, []string{SInt}, SInt)
-		u.axioms = append(u.axioms,
-			fmt.Sprintf("(forall ((r Int)) (! (= (%s (%s r)) r) :pattern ((%s r))))", inv, name, name),
-			fmt.Sprintf("(forall ((r Int)) (! (=> (> r 0) (> (%s r) 0)) :pattern ((%s r))))", name, name),
-			fmt.Sprintf("(= (%s 0) 0)", name))
+	inv := name + "_inv"
+	u.sc.declareFun(name, []string{SInt}, SInt)
+	u.sc.declareFun(inv, []string{SInt}, SInt)
+	r := Term{fmt.Sprintf("(%s %s)", name, ref.S), SInt}
+	// ground instances of: injective, non-nil for non-nil objects, below the
+	// entry watermark for objects that existed at entry (no quantified axioms:
+	// they make satisfiability checks diverge)
+	if !strings.Contains(ref.S, "q!") && !strings.Contains(ref.S, "!f ") && !isFormal(ref.S) {
+		u.axiomOnce(r.S, fmt.Sprintf("(and (= (%s %s) %s) (=> (> %s 0) (> %s 0)) (=> (< %s wm@0) (< %s wm@0)))", inv, r.S, ref.S, ref.S, r.S, ref.S, r.S))
 	}
-	return Term{fmt.Sprintf("(%s %s)", name, ref.S), SInt}
+	return r
+}
+
+// isFormal reports whether a term mentions a spec-function formal parameter (name!param).
+func isFormal(s string) bool {
+	for _, tok := range strings.FieldsFunc(s, func(r rune) bool { return r == ' ' || r == '(' || r == ')' }) {
+		if i := strings.Index(tok, "!"); i > 0 && !strings.ContainsAny(tok[i+1:], "0123456789") {
+			return true
+		}
+	}
+	return false
 }
 
 func (u *Unit) strConst(s string) Term {
@@ -240,12 +251,7 @@ func (u *Unit) box(v Term) Term {
 		return v
 	}
 	name := "box_" + sortID(v.Sort)
-	if _, ok := u.sc.decls[name]; !ok {
-		u.sc.declareFun(name, []string{v.Sort}, SInt)
-		u.sc.declareFun("un"+name, []string{SInt}, v.Sort)
-		pre := []string{fmt.Sprintf("(forall ((x %s)) (! (= (un%s (%s x)) x) :pattern ((%s x))))", v.Sort, name, name, name)}
-		u.axioms = append(u.axioms, pre...)
-	}
+	u.sc.declareFun(name, []string{v.Sort}, SInt)
 	return Term{fmt.Sprintf("(%s %s)", name, v.S), SInt}
 }
 
@@ -254,9 +260,10 @@ func (u *Unit) unbox(p Term, sortName string) Term {
 		return p
 	}
 	name := "box_" + sortID(sortName)
-	if _, ok := u.sc.decls[name]; !ok {
-		u.box(Term{"x", sortName}) // declare
-	}
+	u.sc.declareFun(name, []string{sortName}, SInt)
+	u.sc.declareFun("un"+name, []string{SInt}, sortName)
+	// injectivity of boxing is only needed once a value is unboxed again
+	u.axiomOnce("un"+name, fmt.Sprintf("(forall ((x %s)) (! (= (un%s (%s x)) x) :pattern ((%s x))))", sortName, name, name, name))
 	return Term{fmt.Sprintf("(un%s %s)", name, p.S), sortName}
 }
 
